@@ -34,7 +34,7 @@ Fixpoint spec_run (s : spstate) (ops : list op) : list obs :=
 Fixpoint sorted_by_name (l : plist) : Prop :=
   match l with
   | [] => True
-  | p :: r => (forall q, In q r -> zs_ltb (fst q) (fst p) = false) /\ sorted_by_name r
+  | p :: r => (forall q, In q r -> zs_ltb (sort_key q) (sort_key p) = false) /\ sorted_by_name r
   end.
 
 (* the parser must never see these bytes raw in a serialised name or value: % + & = ?  *)
